@@ -110,7 +110,8 @@ def project(pas, sc):
     """Abstract state of the real arrays, in the real arrays' order."""
     u, o = sc['unit'], sc['origin']
     out = []
-    BAD = (1 << 30) - 1      # garbage (non-finite / out of TLC's int range)
+    BAD = 9999     # garbage (non-finite / far outside the lattice): small
+    #                enough for TLC's 32-bit squares of differences
 
     def iq(t):
         t = float(t)
@@ -126,7 +127,8 @@ def project(pas, sc):
         out.append(dict(
             x=q('x'), y=q('y', sc['dim'] > 1), z=q('z', sc['dim'] > 2),
             h=[iq(t / u) for t in pa.get('h', only_real_particles=False)],
-            id=[iq(t) for t in pa.get('ident', only_real_particles=False)],
+            id=[iq(t) if abs(int(t)) < (1 << 30) else (1 << 30) - 1
+                for t in pa.get('ident', only_real_particles=False)],
             tag=[iq(t) for t in pa.get('tag', only_real_particles=False)]))
     return out
 
